@@ -34,6 +34,8 @@ type Unit struct {
 	Contracts *ContractSet
 	Specs    map[string]SpecSig
 	SpecText string
+	specForms []sexpr
+	opaque   map[string]bool
 	usesSeq  bool
 	errors   []string
 
@@ -135,10 +137,19 @@ func (u *Unit) loadSpecs(file string) error {
 	}
 	u.SpecText = string(data)
 	u.Specs = map[string]SpecSig{}
+	u.opaque = map[string]bool{}
+	for _, line := range strings.Split(u.SpecText, "\n") {
+		if strings.HasPrefix(line, "; @opaque") {
+			for _, n := range strings.Fields(line)[2:] {
+				u.opaque[n] = true
+			}
+		}
+	}
 	sx, err := parseSexprs(u.SpecText)
 	if err != nil {
 		return err
 	}
+	u.specForms = sx
 	sortOf := func(s sexpr) Sort {
 		switch s.String() {
 		case "Int":
@@ -173,6 +184,27 @@ func (u *Unit) loadSpecs(file string) error {
 	u.Specs["pow10"] = SpecSig{Args: []Sort{SInt}, Res: SInt}
 	u.Specs["pow256"] = SpecSig{Args: []Sort{SInt}, Res: SInt}
 	return nil
+}
+
+// specTextFor renders the spec library with opaque definitions hidden unless revealed.
+func (u *Unit) specTextFor(reveal map[string]bool, intOnly bool) string {
+	var b strings.Builder
+	for _, s := range u.specForms {
+		t := s.String()
+		if intOnly && (strings.Contains(t, "BSeq") || seqRe.MatchString(t)) {
+			continue
+		}
+		if s.isList && len(s.list) >= 5 && s.list[0].atom == "define-fun" && u.opaque[s.list[1].atom] && !reveal[s.list[1].atom] {
+			var sorts []string
+			for _, a := range s.list[2].list {
+				sorts = append(sorts, a.list[1].String())
+			}
+			t = fmt.Sprintf("(declare-fun %s (%s) %s)", s.list[1].atom, strings.Join(sorts, " "), s.list[3].String())
+		}
+		b.WriteString(t)
+		b.WriteString("\n")
+	}
+	return b.String()
 }
 
 func (u *Unit) specConst(name string) (Val, bool) {
@@ -322,6 +354,9 @@ func (u *Unit) strLit(s string) T {
 		return t
 	}
 	t := T{fmt.Sprintf("str!%d", len(u.litList)), SSeq}
+	if len(s) <= 12 {
+		t = T{fmt.Sprintf("str!x%x", s), SSeq}
+	}
 	u.lits[s] = t
 	u.litList = append(u.litList, s)
 	return t
